@@ -2,9 +2,9 @@
   Stef.SchemaPrint: `Schema.PrettyPrint` of go/pkg/schema/schema.go as written, producing the
   text as a `List Char`. Core Lean only.
 
-  As written means: `prettyPrintFieldType` tests `Primitive` first, so an enum-typed field
-  (Primitive = uint64, Enum = name after resolution) prints as `uint64`; for an array it prints
-  `[]` + the element type and never the element's `DictName`.
+  As written (since commit e46c0b0): `prettyPrintFieldType` tests `Enum` first, so an enum-typed
+  field (Primitive = uint64, Enum = name after resolution) prints its enum name; for an array it
+  prints `[]` + the element type + ` dict(D)` when the element type has a `DictName`.
 -/
 import Stef.Schema
 
@@ -66,25 +66,25 @@ def joinWith (sep : Name) : List Name → Name
 
 /-- `prettyPrintFieldType` on a non-array type. -/
 def ppBase (b : BaseType) : Name :=
-  match b.prim with
-  | some p => p.text
-  | none =>
-    if b.struct ≠ [] then b.struct
-    else if b.multimap ≠ [] then b.multimap
-    else if b.enum ≠ [] then b.enum
-    else sUnknown
+  if b.enum ≠ [] then b.enum
+  else match b.prim with
+    | some p => p.text
+    | none =>
+      if b.struct ≠ [] then b.struct
+      else if b.multimap ≠ [] then b.multimap
+      else sUnknown
+
+def ppDict (d : Name) : Name := if d ≠ [] then sDictOpen ++ d ++ [')'] else []
 
 /-- `prettyPrintFieldType` -/
 def ppFType : FType → Name
   | .base b => ppBase b
-  | .array e _ _ => '[' :: ']' :: ppBase e
+  | .array e _ _ => '[' :: ']' :: ppBase e ++ ppDict e.dict
 
 /-- the `DictName` of the outer `FieldType`. -/
 def FType.dictName : FType → Name
   | .base b => b.dict
   | .array _ d _ => d
-
-def ppDict (d : Name) : Name := if d ≠ [] then sDictOpen ++ d ++ [')'] else []
 
 /-- `prettyPrintStructField` -/
 def ppField (f : Field) : Name :=
